@@ -83,6 +83,18 @@ func c13Gen(r *rand.Rand, tier string) []spec.Case {
 			add(f, seed, "nil", "nil-hash", sum)
 		}
 	}
+	// histories: several launches of one path sharing one SecureConfig value, the file replaced in between
+	hists := [][]string{{"good", "good"}, {"good", "tampered"}, {"tampered", "good"}, {"good", "tampered", "good"}, {"good", "good", "tampered"}, {"tampered", "tampered", "good", "tampered"}}
+	for _, h := range hashes {
+		for _, hs := range hists {
+			for _, reset := range []bool{false, true} {
+				seed := int64(r.Intn(1000))
+				f := file{"script", pick(r, []int{60, 64, 65, 200})}
+				sum := c13Digest(h, spec.C13File(f.kind, f.size, seed))
+				out = append(out, spec.Case{Kind: "history", P: spec.MustJSON(spec.C13Case{FileKind: f.kind, FileSize: f.size, FileSeed: seed, Hash: h, Variant: "history", Checksum: sum, Steps: hs, CallerReset: reset})})
+			}
+		}
+	}
 	// a missing binary
 	out = append(out, spec.Case{Kind: "missing", P: spec.MustJSON(spec.C13Case{FileKind: "script", FileSize: 64, Hash: "sha256", Variant: "missing", Checksum: make([]byte, 32), Missing: true})})
 	return out
@@ -105,6 +117,45 @@ func c13Judge(c spec.Case, evs []spec.Event, d *Death) CaseResult {
 		res.Violations = append(res.Violations, Violation{Key: "C13:" + key, Msg: fmt.Sprintf("%s [variant=%s hash=%s file=%s/%d checksumLen=%d] err=%q", msg, p.Variant, p.Hash, p.FileKind, p.FileSize, len(p.Checksum), trunc(o.Err, 150))})
 	}
 	content := spec.C13File(p.FileKind, p.FileSize, p.FileSeed)
+	if len(p.Steps) > 0 {
+		res.Class = fmt.Sprintf("history/%s/%v/reset=%v", p.Hash, p.Steps, p.CallerReset)
+		if len(o.Steps) != len(p.Steps) {
+			return CaseResult{Verdict: "inconclusive", Inconcl: "history not completed", Class: res.Class}
+		}
+		var trace []string
+		for i, st := range p.Steps {
+			so := o.Steps[i]
+			body := content
+			if st == "tampered" {
+				body = append(append([]byte(nil), content...), '#', 'x')
+			}
+			sum := c13Digest(p.Hash, body)
+			if !bytes.Equal(sum, so.FileSum) {
+				return CaseResult{Verdict: "inconclusive", Inconcl: "host and driver disagree on the file digest", Class: res.Class}
+			}
+			match := bytes.Equal(sum, p.Checksum)
+			launched := so.Marker || so.ProcessSet
+			trace = append(trace, fmt.Sprintf("%s:launched=%v", st, launched))
+			res.Counters["history_steps"]++
+			switch {
+			case match && !launched:
+				res.Counters["matching"]++
+				viol("history:not-launched", fmt.Sprintf("step %d of %v (one SecureConfig value shared by all launches, callerReset=%v): the file hashes to the checksum but was not executed: %s", i, p.Steps, p.CallerReset, trunc(so.Err, 100)))
+			case !match && launched:
+				res.Counters["non_matching"]++
+				viol("history:launched-with-wrong-checksum", fmt.Sprintf("step %d of %v (one SecureConfig value shared by all launches, callerReset=%v): the file at the command path no longer hashes to the checksum but was executed", i, p.Steps, p.CallerReset))
+			case !match && !so.IsMismatch:
+				res.Counters["non_matching"]++
+				viol("history:wrong-error", fmt.Sprintf("step %d of %v: a differing checksum must yield the checksum-mismatch error, got %q", i, p.Steps, trunc(so.Err, 100)))
+			case match:
+				res.Counters["matching"]++
+			default:
+				res.Counters["non_matching"]++
+			}
+		}
+		res.Sample = map[string]any{"variant": "history", "hash": p.Hash, "steps": trace, "caller_reset": p.CallerReset}
+		return res
+	}
 	want := c13Digest(p.Hash, content)
 	if want != nil && !bytes.Equal(want, o.FileSum) {
 		return CaseResult{Verdict: "inconclusive", Inconcl: "host and driver disagree on the file digest"}
@@ -163,7 +214,7 @@ func init() {
 		ID: "C13", Level: "exploration", Race: true, TestName: "TestC13",
 		Gen: c13Gen, Batch: 300, Children: 6, PerCase: 500 * time.Millisecond, Base: 90 * time.Second,
 		Judge: c13Judge, Finish: c13Finish,
-		Rule:        "cases = (file content: executable scripts of several sizes around the 64-byte block boundary and non-executable junk incl. empty; hash function; checksum variant: exact, every single-bit flip [exhaustive for the first file, sampled elsewhere in quick, exhaustive everywhere in thorough], every proper prefix, suffixes, 1-8 trailing bytes (random / zero), doubled, leading byte, empty, nil, zeros, digest of another file, nil Hash, missing binary). The script writes a launch marker as its first action; the oracle computes the digest independently and requires launched <=> checksum == H(file) plus the corresponding error. Class = variant/hash/file",
+		Rule:        "cases = (file content: executable scripts of several sizes around the 64-byte block boundary and non-executable junk incl. empty; hash function; checksum variant: exact, every single-bit flip [exhaustive for the first file, sampled elsewhere in quick, exhaustive everywhere in thorough], every proper prefix, suffixes, 1-8 trailing bytes (random / zero), doubled, leading byte, empty, nil, zeros, digest of another file, nil Hash, missing binary) plus histories of 2-4 launches of one path that share one SecureConfig value while the file is atomically replaced (good/tampered) in between, with and without the caller resetting the hash. The script writes a launch marker as its first action; the oracle computes the digest independently and requires launched <=> checksum == H(file) plus the corresponding error. Class = variant/hash/file",
 		Assumptions: []string{"'the corresponding error' is matched by errors.Is or message containment (Start wraps two of the sentinels with %s)", "for non-executable junk files 'executed' means exec was attempted (Cmd.Process set or a non-checksum error)"},
 	})
 }
